@@ -217,7 +217,9 @@ class Prop:
                    lines_obs(lambda: n.format_iter(repr=rarg, style=a, add_self=False))] for n in nodes]
             tj = text_obs(lambda: tree.format(repr=rarg, style=a, join=join))
             nj = [text_obs(lambda: n.format(repr=rarg, style=a, join=join)) for n in nodes]
-            obs.append([tr, nd, tj, nj])
+            sr = [lines_obs(lambda: tree.system_root.format_iter(repr=rarg, style=a, add_self=True)),
+                  lines_obs(lambda: tree.system_root.format_iter(repr=rarg, style=a, add_self=False))]
+            obs.append([tr, nd, tj, nj, sr])
 
         fail = None
         for st, o in zip(desc["styles"], obs):
@@ -240,7 +242,7 @@ class Prop:
     # ----- the property statement, executed directly on the emitted lines and the pointer structure
     def oracle(self, tree, nodes, rend, st, o, titles, join, typed):
         segs = segments(st)
-        tr, nd, tj, nj = o
+        tr, nd, tj, nj, sr = o
         cls = "TypedTree" if typed else "Tree"
         trepr = f"{cls}<'{tree.name}'>"
         top = list(tree._root._children or [])
@@ -277,6 +279,13 @@ class Prop:
             kids = list(n._children or [])
             f = self.check_lines(f"node {H.nid(n)}.format_iter(add_self=False)", segs, o0, [], kids,
                                  [x for r in kids for x in branch(r)], rend, 0)
+            if f:
+                return f
+        # --- Node.format_iter on the system root: it is never a line itself; with add_self its children carry connectors
+        allnodes = [x for r in top for x in branch(r)]
+        for add_self, ob in zip((True, False), sr):
+            f = self.check_lines(f"system_root.format_iter(add_self={add_self})", segs, ob, [], top, allnodes, rend,
+                                 1 if add_self else 0)
             if f:
                 return f
         # --- format(join=j) == j.join(format_iter())
